@@ -396,6 +396,76 @@ def check_lambda_results_stream(repo, rep, uni):
     rep.floor('streaming operators with a per-element lambda', n, 8)
 
 
+def check_wrappers_read_one_at_a_time(repo, rep):
+    """R14g: the iterator classes the plumbing wraps a lazy source in
+    (memorize, limit_iterable) advance the wrapped source only by
+    next(<source>), at most once per request: a block read-ahead (islice,
+    extend, a loop) consumes elements nobody asked for and, behind a filter
+    over an endless source, waits for elements that never come."""
+    ut = repo.module('yaql.language.utils')
+    from sa.rules import c11
+    n = 0
+    for fname in ('memorize', 'limit_iterable'):
+        fi = ut.func(fname)
+        for cls in ut.classes.values():
+            outer = model.enclosing(cls.node, (ast.FunctionDef,
+                                               ast.AsyncFunctionDef))
+            if outer is not fi.node and not any(
+                    isinstance(r, ast.Return) and isinstance(
+                        r.value, ast.Call) and isinstance(
+                        r.value.func, ast.Name) and
+                    r.value.func.id == cls.node.name
+                    for r in model.walk_shallow(fi.node)):
+                continue
+            nxt = cls.methods.get('__next__')
+            init = cls.methods.get('__init__')
+            if nxt is None or init is None:
+                continue
+            # the attributes holding the wrapped source: assigned in
+            # __init__ from iter(..) / a constructor parameter / a variable
+            # of the enclosing call
+            srcs = set()
+            for st in model.walk_shallow(init.node):
+                if isinstance(st, ast.Assign) and isinstance(
+                        st.targets[0], ast.Attribute) and isinstance(
+                        st.targets[0].value, ast.Name) and \
+                        st.targets[0].value.id == init.params()[0]:
+                    v = st.value
+                    if isinstance(v, ast.Call) and model.norm(
+                            v.func) == 'iter':
+                        srcs.add(st.targets[0].attr)
+            if not srcs:
+                continue
+            n += 1
+            slf = nxt.params()[0]
+            uses = [x for x in ast.walk(nxt.node)
+                    if isinstance(x, ast.Attribute) and isinstance(
+                        x.value, ast.Name) and x.value.id == slf and
+                    x.attr in srcs and isinstance(x.ctx, ast.Load)]
+            bad = []
+            nexts = []
+            for u in uses:
+                par = getattr(u, '_parent', None)
+                if isinstance(par, ast.Call) and isinstance(
+                        par.func, ast.Name) and par.func.id == 'next' and \
+                        par.args and par.args[0] is u:
+                    nexts.append(par)
+                else:
+                    bad.append(par if par is not None else u)
+            worst = c11.max_calls_per_path(nxt, nexts) if nexts else 0
+            ok = not bad and worst <= 1
+            rep.ob('R14g', '%s/one-element-per-request' % nxt.key, ok,
+                   '%s.__next__ must advance the wrapped source by one '
+                   'next() per request; it %s' % (
+                       cls.node.name,
+                       ('hands the source to `%s`' % model.norm(
+                           bad[0])[:70]) if bad else
+                       'can call next() %d times on one path' % worst),
+                   loc=ut.loc(bad[0] if bad else nxt.node),
+                   construct=model.norm(bad[0])[:120] if bad else '')
+    rep.floor('iterator wrappers of the plumbing', n, 1)
+
+
 def check_wrapper_classes(repo, rep):
     """R14e: the objects the plumbing wraps a lazy source in must not answer
     whole-collection questions (len, truth, membership, indexing) by
@@ -479,7 +549,18 @@ def run(repo, rep):
                 armed=False)
     n3 = check_plumbing(repo, rep, cons)
     check_wrapper_classes(repo, rep)
+    rep.rule('R14g', 'WRAPPERS-READ-ONE-AT-A-TIME: the iterator wrappers of '
+             'memorize / limit_iterable advance their source by one next() '
+             'per request')
+    check_wrappers_read_one_at_a_time(repo, rep)
     check_lambda_results_stream(repo, rep, uni)
+    rep.rule('R11e', 'see C11: a lambda is applied at most once per element '
+             'on every path through a loop over the source (applications '
+             'inside a filter / map the loop reads from count too): the '
+             'number of lambda applications for k results is bounded by the '
+             'elements read')
+    from sa.rules import c11
+    c11.check_r11e(repo, rep, uni)
     rep.count(streaming_sources=n1, search_sources=n2, plumbing_sites=n3)
     rep.floor('streaming operator source parameters', n1, 22)
     rep.floor('search source parameters', n2, 5)
